@@ -164,6 +164,10 @@ class PageCache(Entity):
         if oldest.dirty:
             yield self._disk_write_latency_s
             self._dirty_writebacks += 1
+            if self._pages.get(oldest_id) is not oldest:
+                # Another operation already evicted (or replaced) this page
+                # while the write-back was in flight.
+                return
 
         del self._pages[oldest_id]
         self._evictions += 1
@@ -177,7 +181,13 @@ class PageCache(Entity):
         """Load a page from disk into cache."""
         yield from self._ensure_space()
         yield self._disk_read_latency_s
-        self._pages[page_id] = _CachedPage(page_id=page_id)
+        # Other operations may have filled the cache again while the disk read
+        # was in flight: make room once more right before inserting.
+        yield from self._ensure_space()
+        if page_id not in self._pages:
+            # A write that arrived while the disk read was in flight has
+            # already cached this page dirty; do not replace it by a clean copy.
+            self._pages[page_id] = _CachedPage(page_id=page_id)
 
     def read_page(self, page_id: int) -> Generator[float]:
         """Read a page, serving from cache if present.
@@ -199,8 +209,9 @@ class PageCache(Entity):
             if ahead_id not in self._pages and len(self._pages) < self._capacity:
                 yield from self._ensure_space()
                 yield self._disk_read_latency_s
-                self._pages[ahead_id] = _CachedPage(page_id=ahead_id)
-                self._readaheads += 1
+                if ahead_id not in self._pages and len(self._pages) < self._capacity:
+                    self._pages[ahead_id] = _CachedPage(page_id=ahead_id)
+                    self._readaheads += 1
 
     def write_page(self, page_id: int) -> Generator[float]:
         """Write a page to cache, marking it dirty.
@@ -224,7 +235,7 @@ class PageCache(Entity):
         Returns the number of pages flushed.
         """
         flushed = 0
-        for page in self._pages.values():
+        for page in list(self._pages.values()):  # other operations may insert/evict while a write is in flight
             if page.dirty:
                 yield self._disk_write_latency_s
                 page.dirty = False
